@@ -1828,16 +1828,20 @@ class DecayGroup(BaseDecayGroup, AmpBase):
     @functools.lru_cache()
     def get_swap_factor(self, key):
         factor = 1.0
-        used = []
         for i, j in zip(self.identical_particles, key[1]):
             p = self.get_particle(i[0])
             if int(p.J * 2) % 2 == 0:
                 continue
-            for m, n in zip(i, j):
-                if (m, n) in used or (n, m) in used:
-                    continue
-                used.append((m, n))
-                if m != n:
+            # signature of the permutation: -1 for every cycle of even length
+            perm = [list(i).index(n) for n in j]
+            seen = set()
+            for k in range(len(perm)):
+                n_cycle = 0
+                while k not in seen:
+                    seen.add(k)
+                    k = perm[k]
+                    n_cycle += 1
+                if n_cycle > 0 and n_cycle % 2 == 0:
                     factor *= -1.0
         return factor
 
